@@ -77,6 +77,14 @@ type Lowerer struct {
 	assumedIn *Block
 	assumed map[string]bool
 	afterCall []func()
+	acqPoints []acqPoint
+	initializing map[string]bool // objects being constructed (composite literal): not yet shared
+	specPos token.Pos // when set, spec identifiers resolve in the scope at this source position
+}
+
+type acqPoint struct {
+	b   *Block
+	idx int
 }
 
 func (l *Lowerer) info() *types.Info { return l.fr.fi.Pkg.TypesInfo }
@@ -259,7 +267,7 @@ func (l *Lowerer) wf(v *Term, t types.Type) {
 	switch u := t.Underlying().(type) {
 	case *types.Basic:
 		if u.Info()&types.IsString != 0 {
-			l.assume(Le(IntLit(0), App("strlen", "Int", v)))
+			l.assume(And(Le(IntLit(0), App("strlen", "Int", v)), Le(App("strlen", "Int", v), IntPow2(56))))
 		}
 	case *types.Slice:
 		r := l.p.reg
@@ -343,6 +351,7 @@ func (l *Lowerer) load(pl *place) *Term {
 		}
 		hv := l.heapVar(l.fieldHeapName(pl.owner, pl.path), l.p.sortOf(pl.typ))
 		l.p.heapVarTypes[l.fieldHeapName(pl.owner, pl.path)] = pl.typ
+		l.guardedAccess(pl)
 		v := Select(hv, pl.ref)
 		l.wfLoad(v, pl.typ)
 		return v
@@ -371,6 +380,33 @@ func (l *Lowerer) load(pl *place) *Term {
 		return v
 	}
 	panic("load of blank place")
+}
+
+// guardedAccess: a field declared `guarded` may only be touched while its lock is held.
+func (l *Lowerer) guardedAccess(pl *place) {
+	if l.spec || len(l.p.guardedBy) == 0 || l.initializing[pl.ref.String()] {
+		return
+	}
+	first := pl.path
+	if i := strings.Index(first, "."); i > 0 {
+		first = first[:i]
+	}
+	for key, fields := range l.p.guardedBy {
+		owner := key[:strings.LastIndex(key, ".")]
+		if owner != pl.owner {
+			continue
+		}
+		for _, f := range fields {
+			if f == first {
+				lockField := key[strings.LastIndex(key, ".")+1:]
+				name := "addr." + owner + "." + lockField
+				l.p.reg.Fun(name, []string{"Int"}, "Int")
+				held := l.heapVar("F.$lock.held", "Bool")
+				l.assertOb("lock-held", owner+"."+f, "access to "+owner+"."+f+" requires "+key, nil,
+					Select(held, App(name, "Int", pl.ref)), nil)
+			}
+		}
+	}
 }
 
 func hasBound(t *Term) bool {
@@ -433,6 +469,7 @@ func (l *Lowerer) store(pl *place, v *Term) {
 		}
 		hv := l.heapVar(l.fieldHeapName(pl.owner, pl.path), l.p.sortOf(pl.typ))
 		l.p.heapVarTypes[l.fieldHeapName(pl.owner, pl.path)] = pl.typ
+		l.guardedAccess(pl)
 		l.assign(hv.Name, hv.Sort, Store(hv, pl.ref, v))
 	case pIndex:
 		b := l.load(pl.base)
@@ -765,11 +802,20 @@ func (l *Lowerer) trIdent(x *ast.Ident) (*Term, types.Type) {
 // lookupName resolves a name for spec expressions: function scope, then package scope, then universe.
 func (l *Lowerer) lookupName(name string) types.Object {
 	pk := l.fr.fi.Pkg
+	if l.specPos.IsValid() {
+		if sc := pk.Types.Scope().Innermost(l.specPos); sc != nil {
+			if _, o := sc.LookupParent(name, l.specPos); o != nil {
+				return o
+			}
+		}
+	}
 	for fi := l.fr.fi; fi != nil; fi = fi.Parent {
 		if fi.Body != nil {
-			sc := pk.Types.Scope().Innermost(fi.Body.Lbrace + 1)
+			// the function's outermost block at its end: parameters, results and every variable declared
+			// at the top level of the body are visible to specs
+			sc := pk.Types.Scope().Innermost(fi.Body.Rbrace)
 			if sc != nil {
-				if _, o := sc.LookupParent(name, fi.Body.Lbrace+1); o != nil {
+				if _, o := sc.LookupParent(name, fi.Body.Rbrace); o != nil {
 					return o
 				}
 			}
@@ -842,6 +888,9 @@ func (l *Lowerer) globalVar(o *types.Var) *Term {
 		return v
 	}
 	l.p.reg.Fun(name, nil, s)
+	if lo, hi, ok := intRange(o.Type()); ok {
+		l.p.reg.Axiom(name, fmt.Sprintf("(and (<= %s %s) (<= %s %s))", lo, smtName(name), smtName(name), hi))
+	}
 	if isRefLike(o.Type()) {
 		// sentinel errors and similar: distinct non-nil references below every allocation
 		l.p.reg.Axiom(name, "(> "+smtName(name)+" 0)")
@@ -1312,10 +1361,18 @@ func (l *Lowerer) addrOf(x *ast.UnaryExpr) (*Term, types.Type) {
 				return l.boxedPlace(v).ref, typ
 			}
 		}
-		if st, _ := structOf(innerT); st != nil && !isPointer(innerT) && !l.p.isOpaqueStruct(innerT) {
-			// &localStruct or &x.f of struct type: only support taking the address of a whole heap object path ""
-			l.unsupported(x, "address of struct variable")
-			return l.freshVal(typ), typ
+		if st, stt := structOf(innerT); st != nil && !isPointer(innerT) && !l.p.isOpaqueStruct(innerT) {
+			// &s[i] / &x.f of struct type: a fresh object holding a copy of the value (aliasing with the
+			// original location is not modelled: later writes through either are not seen by the other)
+			if _, isIdx := inner.(*ast.IndexExpr); isIdx || true {
+				v, _ := l.tr(x.X)
+				r := l.alloc()
+				owner := l.p.structName(stt)
+				l.emit(&Stmt{Kind: SAllocZero, Struct: owner, Ref: r})
+				l.store(&place{kind: pHeap, ref: r, owner: owner, path: "", typ: stt}, v)
+				l.note("A-addr: &e of a struct value stored in another object is a copy; aliasing with the original is not modelled")
+				return r, typ
+			}
 		}
 		if l.p.isOpaqueStruct(innerT) {
 			// &mutex etc: an opaque reference
